@@ -65,6 +65,11 @@ func c13Calls() []c13Call {
 			out = append(out, c13Call{t, d, "/"})
 		}
 	}
+	// calls that fail (every kind of failure the evaluator knows): what a failed
+	// call leaves behind must not change later calls
+	for _, t := range []string{"$nope", "nofn()", "1/b", "//b[$nope]", "//b[nofn(.)]", "//b[count(1)]", "q:b", "//b[1 div $nope]"} {
+		out = append(out, c13Call{t, 0, "/"})
+	}
 	return out
 }
 
@@ -156,6 +161,53 @@ func c13BuildHistory(c *run.Check) {
 				fmt.Sprintf("process history: BuildExpr+Exec of %s returns %s in a fresh process but %s after %s was built and executed in the same process", calls[j], solo[j], got, calls[i]))
 		}
 	})
+	// long histories of one repeated call followed by a probe: state that builds up
+	// a little with every call (a counter that is not restored on an error path, a
+	// table that only grows) shows only after hundreds of repetitions
+	if c.Violations() == 0 {
+		const reps = 500
+		probes := []int{}
+		for j, cl := range calls {
+			if cl.Doc == 0 && cl.Ctx == "/" && (cl.Text == "count(//b)" || cl.Text == "//b[1]" || cl.Text == "concat('a','b')" || cl.Text == "sum(//c)") {
+				probes = append(probes, j)
+			}
+		}
+		type rj struct{ i, j int }
+		var jobs []rj
+		for i, cl := range calls {
+			if cl.Doc != 0 || cl.Ctx != "/" {
+				continue
+			}
+			for _, j := range probes {
+				jobs = append(jobs, rj{i, j})
+			}
+		}
+		run.ParallelW(len(jobs), func(_, k int) {
+			if c.Violations() > 0 || c.TimeUp() {
+				return
+			}
+			i, j := jobs[k].i, jobs[k].j
+			hist := make([]int, 0, reps+1)
+			for r := 0; r < reps; r++ {
+				hist = append(hist, i)
+			}
+			hist = append(hist, j)
+			c.Transitions.Add(int64(reps))
+			c.Traces.Add(1)
+			c.Evaluations.Add(int64(reps + 1))
+			got := c13RunHistory(hist...)
+			if strings.HasPrefix(got, "PROCESS FAILED: ") && !strings.Contains(got, "goroutine ") {
+				c.Add("process_histories_not_run", 1)
+				c.Exhaustive = false
+				return
+			}
+			if got != solo[j] {
+				c.Violation(map[string]interface{}{"kind": "build-history", "first": calls[i], "repeated": reps, "then": calls[j], "got": got, "alone": solo[j]},
+					fmt.Sprintf("process history: BuildExpr+Exec of %s returns %s in a fresh process but %s after %s was built and executed %d times in the same process", calls[j], solo[j], got, calls[i], reps))
+			}
+		})
+		c.Set("repeated_call_histories_in_fresh_processes", fmt.Sprintf("%d (one call x %d, then a probe)", len(jobs), reps))
+	}
 	c.Set("two_call_histories_in_fresh_processes", n*(n-1))
 	c.Set("two_call_history_distinct_outcomes", len(distinct))
 }
